@@ -40,6 +40,10 @@ STMT_ERRORS = [
     ("bind_call", "ok_fn() = 1"), ("rset_mismatch", "ok_list[0:2] = [1]"), ("rset_nonindexable", "ok_list[0:1] = 1"),
     ("prop_assign_nonobj", "ok_int.k = 1"), ("index_assign_nonindexable", "ok_int[0] = 1"), ("range_start_after_end", "ok_list[2:1] = []"),
     ("param_literal", "fn g_lit(1) {\n    return 1\n}"), ("collect_too_few", "[c1, c2, ..c3] := [1]"),
+    ("param_prop_spread", "fn g_ps({a..}) {\n    return 1\n}"), ("param_item_spread", "fn g_is([a..]) {\n    return 1\n}"),
+    ("param_index", "fn g_pi(ok_list[0]) {\n    return 1\n}"), ("param_range_index", "fn g_pr(ok_list[0:1]) {\n    return 1\n}"),
+    ("param_prop", "fn g_pp(ok_obj.a) {\n    return 1\n}"), ("prop_name_bad_utf8", 'v_bad := ok_obj["é"[0]]'),
+    ("prop_name_bad_utf8_lit", 'v_bad2 := {"é"[1:2]: 1}'), ("destruct_key_bad_utf8", '{"é"[0]: q9} := ok_obj'),
 ]
 
 POSITIONS = {
